@@ -308,6 +308,11 @@ predefine_macro(CPPParser& parser, const string& inoption) {
     macro_name = inoption;
   }
 
+  if (macro_name.empty() || isspace((unsigned char)macro_name[0])) {
+    cerr << "Invalid macro name in -D option: '" << inoption << "'\n";
+    exit(1);
+  }
+
   CPPManifest *macro = new CPPManifest(parser, macro_name, macro_def);
   parser._manifests[macro->_name] = macro;
 }
